@@ -8,5 +8,16 @@ git -C /repo worktree add -q "$WT" HEAD || exit 2
 cd /verif
 VERIF_REPO="$WT" bin/check "$PROP" "$TIER" > /verif/seeded/$ID/check.$PROP.$TIER.log 2>&1; rc=$?
 echo "seed $ID: check $PROP $TIER exit=$rc"; grep -h -A1 '^VIOLATION' /verif/seeded/$ID/check.$PROP.$TIER.log | grep signature | sort | uniq -c | head -6
+python3 - "$ID" "$PROP" "$TIER" "$rc" <<'PY'
+import json,sys,re,os
+id,prop,tier,rc=sys.argv[1:]
+mp='/verif/seeded/%s/meta.json'%id
+m=json.load(open(mp))
+log=open('/verif/seeded/%s/check.%s.%s.log'%(id,prop,tier)).read()
+sig=sorted(set(re.findall(r'^  signature=(.*)$',log,re.M)))[:8]
+key='recheck' if prop==m['breaks_property'] else 'other_checks_detail'
+m.setdefault(key,{})[prop+'/'+tier]={"exit":int(rc),"caught":rc=="1","signatures":sig}
+json.dump(m,open(mp,'w'),indent=1)
+PY
 git -C /repo worktree remove --force "$WT"; rm -rf /verif/.work/*-$(echo "$WT" | md5sum | cut -c1-8)
 exit $rc
